@@ -4,10 +4,13 @@ import (
 	"fmt"
 	"go/ast"
 	"go/parser"
+	"go/printer"
 	"go/token"
 	"os"
 	"path/filepath"
+	"regexp"
 	"sort"
+	"strconv"
 	"strings"
 
 	"pigeonverif/internal/load"
@@ -143,6 +146,13 @@ func siblingGrammars(c *Ctx, rule string) {
 		r.Fatal("cannot read the generated front-ends: %v %v", err1, err2)
 		return
 	}
+	bootAct, err3 := actionBodies(filepath.Join(repo, "bootstrap/cmd/bootstrap-pigeon/bootstrap_pigeon.go"))
+	fullAct, err4 := actionBodies(filepath.Join(repo, "pigeon.go"))
+	if err3 != nil || err4 != nil {
+		r.Fatal("cannot read the code blocks of the generated front-ends: %v %v", err3, err4)
+		return
+	}
+	sameAct := 0
 	var shared []string
 	for n := range boot {
 		if _, ok := full[n]; ok {
@@ -156,6 +166,18 @@ func siblingGrammars(c *Ctx, rule string) {
 		if boot[n] == full[n] {
 			same++
 			r.Ok(rule, construct, "", "grammar/bootstrap.peg, grammar/pigeon.peg", "identical expression in both grammars")
+			// same expression: the code blocks that build the AST node must be the same as well
+			ba, fa := strings.Join(bootAct[n], "\n--\n"), strings.Join(fullAct[n], "\n--\n")
+			aconstruct := "A.front-end-grammars:actions of rule " + n
+			switch _, listedRule := siblingGrammarReasons[n]; {
+			case ba == fa:
+				sameAct++
+				r.Ok(rule, aconstruct, "", "grammar/bootstrap.peg, grammar/pigeon.peg", fmt.Sprintf("%d identical code blocks", len(bootAct[n])))
+			case listedRule:
+				r.Ok(rule, aconstruct, "", "grammar/bootstrap.peg, grammar/pigeon.peg", "differs by design: "+siblingGrammarReasons[n])
+			default:
+				r.Bad(rule, aconstruct, "", "grammar/bootstrap.peg, grammar/pigeon.peg", fmt.Sprintf("rule %s has the same expression in both front-end grammars but its code blocks differ, and it is not one of the rules where pigeon.peg extends bootstrap.peg: the two front-ends build different AST nodes for the same text. bootstrap: %s | pigeon: %s", n, abbreviate(firstDiff(ba, fa)), abbreviate(firstDiff(fa, ba))))
+			}
 			continue
 		}
 		if why, ok := siblingGrammarReasons[n]; ok {
@@ -165,7 +187,7 @@ func siblingGrammars(c *Ctx, rule string) {
 		}
 		r.Bad(rule, construct, "", "grammar/bootstrap.peg, grammar/pigeon.peg", fmt.Sprintf("the two front-end grammars define rule %s differently although it is not one of the rules where pigeon.peg extends bootstrap.peg: bootstrap has %s, pigeon has %s — one of the two siblings was changed alone, so they no longer accept the same texts", n, abbreviate(boot[n]), abbreviate(full[n])))
 	}
-	r.Analysed["shared_front_end_rules"] = map[string]int{"shared": len(shared), "identical": same, "differ_by_design": listed}
+	r.Analysed["shared_front_end_rules"] = map[string]int{"shared": len(shared), "identical": same, "differ_by_design": listed, "identical_actions": sameAct}
 	r.Min(rule+" shared rules", 40, len(shared))
 }
 
@@ -174,4 +196,62 @@ func abbreviate(s string) string {
 		return s[:220] + "…"
 	}
 	return s
+}
+
+var onMethodRe = regexp.MustCompile(`^on([A-Za-z_][A-Za-z_0-9]*?)(\d+)$`)
+
+// actionBodies returns, per rule, the bodies of its on<Rule><n> methods (in index order), printed from the syntax
+// tree without comments or positions.
+func actionBodies(path string) (map[string][]string, error) {
+	fset := token.NewFileSet()
+	f, err := parser.ParseFile(fset, path, nil, parser.SkipObjectResolution)
+	if err != nil {
+		return nil, err
+	}
+	type ent struct {
+		ix   int
+		body string
+	}
+	tmp := map[string][]ent{}
+	for _, d := range f.Decls {
+		fd, ok := d.(*ast.FuncDecl)
+		if !ok || fd.Recv == nil || fd.Body == nil || len(fd.Recv.List) != 1 || nospace(fd.Recv.List[0].Type) != "*current" {
+			continue
+		}
+		m := onMethodRe.FindStringSubmatch(fd.Name.Name)
+		if m == nil {
+			continue
+		}
+		var sb strings.Builder
+		if err := printer.Fprint(&sb, token.NewFileSet(), fd.Body); err != nil {
+			return nil, err
+		}
+		var params []string
+		for _, p := range fd.Type.Params.List {
+			for _, nm := range p.Names {
+				params = append(params, nm.Name)
+			}
+		}
+		ix, _ := strconv.Atoi(m[2])
+		tmp[m[1]] = append(tmp[m[1]], ent{ix, "(" + strings.Join(params, ",") + ")" + sb.String()})
+	}
+	out := map[string][]string{}
+	for k, es := range tmp {
+		sort.Slice(es, func(i, j int) bool { return es[i].ix < es[j].ix })
+		for _, e := range es {
+			out[k] = append(out[k], e.body)
+		}
+	}
+	return out, nil
+}
+
+// firstDiff returns the part of a starting at the first line where a and b differ.
+func firstDiff(a, b string) string {
+	al, bl := strings.Split(a, "\n"), strings.Split(b, "\n")
+	for i := range al {
+		if i >= len(bl) || strings.TrimSpace(al[i]) != strings.TrimSpace(bl[i]) {
+			return strings.TrimSpace(strings.Join(al[i:minInt(len(al), i+4)], " "))
+		}
+	}
+	return "(prefix of the other)"
 }
